@@ -2,6 +2,7 @@ CONSTANTS Urls <- UrlsC
           Texts <- TextsC
           Cfgs <- CfgsC
           RebuildOnlyIfChanged = TRUE
+          FirstOfBatch = FALSE
           IdentsAccumulate = FALSE
           ForgetIdentRecord = TRUE
           ConfigRebuilds = TRUE
